@@ -1,6 +1,7 @@
 import CTV.Lemmas.TlsCodec
 import CTV.Lemmas.TlsTag
 import CTV.Lemmas.TlsSupported
+import CTV.Gen.CtTypes
 /-!
 # C09 — the TLS presentation codec is a bijection on every supported type shape
 
@@ -8,7 +9,7 @@ Theorems over the executable model `Tls.enc` / `Tls.dec` (`CTV/Tls/Codec.lean`, 
 correspondence run on generated Go types) for **every** type shape in the universe `Tls.Ty` — fixed-width
 integers, enums, byte arrays, byte strings, vectors, nested structs, selector-driven variants — every value
 and every byte string.  The range test `Info.check` and `byteCount` are the kernels **regenerated** from
-`tls/tls.go` on each run (`Gen.fieldInfoCheck`, `Gen.byteCount`); `check_sound`, `check_spec_partial`
+`tls/tls.go` on each run (`Gen.fieldInfoCheck`, `Gen.byteCount`); `check_sound`, `check_spec_partial`, `C09Width8.check_spec`
 and `byteCount_spec` are proved about whatever the extractor produced.
 
 `Ty.wf` (hypothesis of `dec_enc` only): every enum / length prefix has a size clause of 1…8 bytes, and the
@@ -19,7 +20,13 @@ set_option linter.unusedSimpArgs false
 namespace C09
 open Tls CTV
 
-/-! ## the two round trips -/
+/-! ## the two round trips
+
+`Tls.dec : Ty → Bytes → Except Err (Val × Bytes)` has no argument for what the destination held before: in the model the
+result of a decode is a function of the type shape and the bytes alone, so "decoding B into a variable that already
+holds A gives what decoding B into a fresh variable gives" is true of the model by its type.  The implementation is held
+to that by the harness' *reused-destination* mode (both C09 and C04: every successful decode is repeated into a
+destination that already holds an earlier value of the same type and must give the same value, rest and re-encoding). -/
 
 /-- decode ∘ encode: for every well-formed type shape `t` (variants included), every value `v` and every
 suffix `r`: if `v` encodes to `bs` then `bs ++ r` decodes to exactly `v` with exactly `r` left over. -/
@@ -114,6 +121,15 @@ theorem no_overalloc (t : Ty) (bs rest : Bytes) (v : Val) (h : dec t bs = .ok (v
   · rcases a3 with a3 | a3 <;> omega
   · intro hp; rcases a3 with a3 | a3 <;> omega
 
+/- FULL (allocation clause for *failing* decodes): "no byte string causes an allocation larger than the input justifies" is about
+hostile input, which mostly does not decode; `no_overalloc` speaks about successful decodes only.  The model is pure and
+builds nothing on a failing path, so a statement about allocation before a failure would need an allocation-tracking
+variant of `dec` mirroring where `reflect.MakeSlice` is called (after the declared length has been compared with the
+remaining input, tls.go) — not done.  What stands instead: `readPrefixed_len` (a body is handed to the element loop only
+after `declared length ≤ remaining input`), and on the implementation side the harness' hostile-input oracle
+(`c09HostileAlloc`: all-ones length prefixes with a few bytes behind them, bytes allocated during the call measured with
+runtime.MemStats, bound 256 KiB + 4 KiB·len(input)), which fires on "MakeSlice before the length test" (notes/C09.md). -/
+
 example : (Val.list [.struct [.num 5], .struct [.num 6]]).cells = 2 := by rfl
 example : exVal.payload = 2 ∧ exVal.cells = 2 := by decide
 
@@ -161,12 +177,8 @@ theorem check_sound (i : Info) (v : Nat) (hc : i.count ≤ 8) (h : i.check v = t
     all_goals simp_all
     all_goals omega
 
-/- FULL: `check_spec : i.count ≤ 8 → (i.check v = true ↔ v < 256 ^ i.count ∧ (i.maxlen = 0 ∨ (i.minlen ≤ v ∧ v ≤ i.maxlen)))`
-for every `v < 2^64`.
-On the unchanged tree the statement is FALSE at `count = 8`: `1 << (8*count)` wraps to 0 and every value is
-refused (finding F2, re-found by the harness on `struct{E tls.Enum `tls:"size:8"`}`), so only the widths 0…7 are
-proved here; the direction "accepted ⇒ in range" holds for all widths (`check_sound`).  With fixes/C09-2.diff
-applied the 8-byte case is covered by the correspondence run (model = regenerated kernel = code). -/
+/-- The iff for widths ≤ 7, kept because its proof does not depend on how width 8 is handled; the statement for all
+widths 1…8 is `C09Width8.check_spec`. -/
 theorem check_spec_partial (i : Info) (v : Nat) (hc : i.count ≤ 7) :
     i.check v = true ↔ (v < 256 ^ i.count ∧ (i.maxlen = 0 ∨ (i.minlen ≤ v ∧ v ≤ i.maxlen))) :=
   check_iff i v hc
@@ -176,39 +188,26 @@ example : Info.check ⟨2, 1, 300, true⟩ 300 = true ∧ Info.check ⟨2, 1, 30
 
 /-! ## the tag grammar -/
 
-/-- `fieldTagToFieldInfo` is: split on `,`, fold the clauses from left to right, final checks. -/
+/-- `fieldTagToFieldInfo` is: split on `,`, fold the clauses from left to right, final checks.  (This is the definition of
+`parseTag` restated — `rfl`; the content is in `tagClause_*`, `tag_maxval` … `tag_empty` below, in `Gen.tagFinalChecks`
+(regenerated) and in the correspondence run, which sends every raw tag string through `parseTag`.) -/
 theorem tag_grammar (str : List Char) (name : String) :
     parseTag str name = tagFinish ((splitOn ',' str).foldl tagClause none) name := rfl
 
 /-- `maxval:N` (any decimal uint64 literal, leading zeros allowed): width `byteCount N`, which is `count = byteCount maxval`. -/
 theorem tag_maxval (ds : List Char) (n : Nat) (name : String) (h : parseUint 64 ds = some n) :
-    parseTag ("maxval:".toList ++ ds) name = .ok (some { count := byteCount n, countSet := true, name := name }) := by
-  have hc : ',' ∉ "maxval:".toList ++ ds := no_comma_kw _ _ (by decide) (parseUint_no_comma _ _ _ h)
-  have hr := byteCount_range n (parseUint_lt _ _ _ h)
-  unfold parseTag
-  rw [splitOn_no_sep _ _ hc]
-  simp only [List.foldl, tagClause_maxval none ds n h, tagFinish]
-  simp [show ¬ byteCount n = 0 by omega, show ¬ 8 < byteCount n by omega]
+    parseTag ("maxval:".toList ++ ds) name = .ok (some { count := byteCount n, countSet := true, name := name }) :=
+  parseTag_maxval' ds n name h
 
 /-- `size:S` for `1 ≤ S ≤ 8`. -/
 theorem tag_size (ds : List Char) (n : Nat) (name : String) (h : parseUint 32 ds = some n) (h1 : 1 ≤ n) (h8 : n ≤ 8) :
-    parseTag ("size:".toList ++ ds) name = .ok (some { count := n, countSet := true, name := name }) := by
-  have hc : ',' ∉ "size:".toList ++ ds := no_comma_kw _ _ (by decide) (parseUint_no_comma _ _ _ h)
-  unfold parseTag
-  rw [splitOn_no_sep _ _ hc]
-  simp only [List.foldl, tagClause_size none ds n h, tagFinish]
-  simp [show ¬ n = 0 by omega, show ¬ 8 < n by omega]
+    parseTag ("size:".toList ++ ds) name = .ok (some { count := n, countSet := true, name := name }) :=
+  parseTag_size' ds n name h h1 h8
 
 /-- a width outside 1…8 is a structural error -/
 theorem tag_size_bad (ds : List Char) (n : Nat) (name : String) (h : parseUint 32 ds = some n) (hb : n < 1 ∨ 8 < n) :
-    parseTag ("size:".toList ++ ds) name = .error .structural := by
-  have hc : ',' ∉ "size:".toList ++ ds := no_comma_kw _ _ (by decide) (parseUint_no_comma _ _ _ h)
-  unfold parseTag
-  rw [splitOn_no_sep _ _ hc]
-  simp only [List.foldl, tagClause_size none ds n h, tagFinish]
-  rcases hb with hb | hb
-  · simp [show n = 0 by omega]
-  · simp [show ¬ n = 0 by omega, hb]
+    parseTag ("size:".toList ++ ds) name = .error .structural :=
+  parseTag_size_bad' ds n name h hb
 
 /-- `minlen:A,maxlen:B`: width `byteCount B`, range `A…B`; an inverted range is a structural error. -/
 theorem tag_minlen_maxlen (da db : List Char) (a b : Nat) (name : String)
@@ -216,28 +215,17 @@ theorem tag_minlen_maxlen (da db : List Char) (a b : Nat) (name : String)
     parseTag ("minlen:".toList ++ da ++ ',' :: ("maxlen:".toList ++ db)) name =
       if a ≤ b then .ok (some { count := byteCount b, countSet := true, minlen := a, maxlen := b, name := name })
       else .error .structural := by
-  have hca : ',' ∉ "minlen:".toList ++ da := no_comma_kw _ _ (by decide) (parseUint_no_comma _ _ _ ha)
-  have hcb : ',' ∉ "maxlen:".toList ++ db := no_comma_kw _ _ (by decide) (parseUint_no_comma _ _ _ hb)
-  have hr := byteCount_range b (parseUint_lt _ _ _ hb)
-  unfold parseTag
-  rw [splitOn_append _ _ _ hca, splitOn_no_sep _ _ hcb]
-  simp only [List.foldl, tagClause_minlen none da a ha, tagClause_maxlen _ db b hb, tagFinish]
   by_cases hab : a ≤ b
-  · simp [hab, show ¬ byteCount b = 0 by omega, show ¬ 8 < byteCount b by omega, show ¬ b < a by omega]
-  · simp [hab, show ¬ byteCount b = 0 by omega, show ¬ 8 < byteCount b by omega, show b < a by omega]
+  · simp only [hab, if_true]; exact parseTag_minmax' da db a b name ha hb hab
+  · simp only [hab, if_false]; exact parseTag_minmax_inverted' da db a b name ha hb (by omega)
 
 /-- `selector:S,val:V` (S non-empty, without a comma): a variant of selector field `S` for value `V`;
 none of the size checks apply. -/
 theorem tag_selector_val (s dv : List Char) (v : Nat) (name : String) (hs : ',' ∉ s) (hne : String.ofList s ≠ "")
     (hv : parseUint 64 dv = some v) :
     parseTag ("selector:".toList ++ s ++ ',' :: ("val:".toList ++ dv)) name =
-      .ok (some { selector := String.ofList s, val := v, name := name }) := by
-  have hca : ',' ∉ "selector:".toList ++ s := no_comma_kw _ _ (by decide) hs
-  have hcb : ',' ∉ "val:".toList ++ dv := no_comma_kw _ _ (by decide) (parseUint_no_comma _ _ _ hv)
-  unfold parseTag
-  rw [splitOn_append _ _ _ hca, splitOn_no_sep _ _ hcb]
-  simp only [List.foldl, tagClause_selector none s, tagClause_val _ dv v hv, tagFinish]
-  simp [hne]
+      .ok (some { selector := String.ofList s, val := v, name := name }) :=
+  parseTag_selector_val' s dv v name hs hne hv
 
 /-- A field without tag gets an info holding only its name; the top-level call (`name = ""`) gets none. -/
 theorem tag_empty (name : String) :
@@ -277,12 +265,25 @@ decimal literals in the tags.  (Whether the selector precedes its variants does 
 encoder refuses the value otherwise.) -/
 
 /-- Every Go type built from the documented shapes resolves to a well-formed codec type … -/
-theorem supported_wf (g : GoTy) (h : Sup g) (info : Option FieldInfo) : (resolve false g info).wf = true := h.wf info
+theorem supported_wf (g : GoTy) (h : Sup g) (info : Option FieldInfo) : (resolve false g info).wf = true := h.wf_top info
 
 /-- … hence decoding the encoding of any of its values returns the value with exactly the suffix left over. -/
 theorem dec_enc_supported (g : GoTy) (h : Sup g) (v : Val) (bs r : Bytes) (he : enc (resolve false g none) v = .ok bs) :
     dec (resolve false g none) (bs ++ r) = .ok (v, r) :=
-  Tls.dec_enc _ v bs r (h.wf none) he
+  Tls.dec_enc _ v bs r (h.wf_top none) he
+
+/-- Top-level values with parameters (`MarshalWithParams(v, "maxval:255")` …): an enum or a byte string / vector with a
+documented size clause as parameter string is well-formed too. -/
+theorem supported_top_enum (g : GoTy) (hk : g.enumKind = true) (params : List Char) (hp : SizeTag params) :
+    ∃ T, resolveTop g params = .ok T ∧ T.wf = true := by
+  obtain ⟨i, hi, _, hw⟩ := hp.parse ""
+  exact ⟨.enum i.toInfo, by simp [resolveTop, hi, resolve_enumKind g hk], by simpa [Ty.wf] using hw⟩
+
+theorem supported_top_bytes (g e : GoTy) (hc : g.core = .slice e) (he : e.isU8 = true) (params : List Char) (hp : SizeTag params) :
+    ∃ T, resolveTop g params = .ok T ∧ T.wf = true := by
+  obtain ⟨i, hi, _, hw⟩ := hp.parse ""
+  refine ⟨.bytes i.toInfo, ?_, by simpa [Ty.wf] using hw⟩
+  simp [resolveTop, hi, resolve_core g (by simp [hc, GoTy.composite]), hc, resolve, he]
 
 /-- the documented example `VariantItem` is in the table -/
 def variantItem : GoTy := .struct (.cons "Sel" ("maxval:".toList ++ "2".toList) (.named .u64)
@@ -290,9 +291,39 @@ def variantItem : GoTy := .struct (.cons "Sel" ("maxval:".toList ++ "2".toList) 
   (.cons "Data32" ("selector:".toList ++ "Sel".toList ++ ',' :: ("val:".toList ++ "2".toList)) (.ptr .u32) .nil)))
 
 example : Sup variantItem :=
-  .struct _ (.enum "Sel" _ _ _ rfl (.maxval _ 2 (by decide +kernel))
+  .struct _ _ rfl (.enum "Sel" _ _ _ rfl (.maxval _ 2 (by decide +kernel))
     (.variant "Data16" "Sel".toList "1".toList 1 .u16 _ (by decide) (by decide) (by decide +kernel) .u16
     (.variant "Data32" "Sel".toList "2".toList 2 .u32 _ (by decide) (by decide) (by decide +kernel) .u32 .nil)))
+
+/-- The repository's own wire structs are in the table, defined slice / array / enum types included: the regenerated
+`ct.TreeHeadSignature` (enums declared from `tls.Enum`, `uint64`, `ct.SHA256Hash = [32]byte`) … -/
+example : Sup Gen.ct_TreeHeadSignature :=
+  have mv : SizeTag "maxval:255".toList := .ofEq (by decide) (.maxval "255".toList 255 (by decide +kernel))
+  .struct _ _ rfl
+    (.enum "Version" _ _ _ (by decide) mv
+    (.enum "SignatureType" _ _ _ (by decide) mv
+    (.plain "Timestamp" _ _ _ (by decide) .u64 (Or.inl (by decide))
+    (.plain "TreeSize" _ _ _ (by decide) .u64 (Or.inl (by decide))
+    (.plain "SHA256RootHash" _ _ _ (by decide) (.arr _ 32 .u8 rfl rfl) (Or.inl (by decide)) .nil)))))
+
+/-- … and `ct.SignedCertificateTimestamp` (`ct.LogID` struct, `ct.CTExtensions = []byte`, `ct.DigitallySigned`, a defined
+type of the defined struct `tls.DigitallySigned`). -/
+example : Sup Gen.ct_SignedCertificateTimestamp :=
+  have mv : SizeTag "maxval:255".toList := .ofEq (by decide) (.maxval "255".toList 255 (by decide +kernel))
+  have ext : SizeTag "minlen:0,maxlen:65535".toList :=
+    .ofEq (by decide) (.minmax "0".toList "65535".toList 0 65535 (by decide +kernel) (by decide +kernel) (by decide))
+  .struct _ _ rfl
+    (.enum "SCTVersion" _ _ _ (by decide) mv
+    (.plain "LogID" _ _ _ (by decide)
+      (.struct _ _ rfl (.plain "KeyID" _ _ _ (by decide) (.arr _ 32 .u8 rfl rfl) (Or.inl (by decide)) .nil)) (Or.inl (by decide))
+    (.plain "Timestamp" _ _ _ (by decide) .u64 (Or.inl (by decide))
+    (.bytes "Extensions" _ _ .u8 _ rfl rfl ext
+    (.plain "Signature" _ _ _ (by decide)
+      (.struct _ _ rfl
+        (.plain "Algorithm" _ _ _ (by decide)
+          (.struct _ _ rfl (.enum "Hash" _ _ _ (by decide) mv (.enum "Signature" _ _ _ (by decide) mv .nil))) (Or.inl (by decide))
+        (.bytes "Signature" _ _ .u8 _ rfl rfl ext .nil)))
+      (Or.inl (by decide)) .nil)))))
 
 example : variantItem = .struct (.cons "Sel" "maxval:2".toList (.named .u64)
   (.cons "Data16" "selector:Sel,val:1".toList (.ptr .u16) (.cons "Data32" "selector:Sel,val:2".toList (.ptr .u32) .nil))) := by
